@@ -72,6 +72,9 @@ func (ex *Exec) newFrame(fn *ssa.Function, parent *Frame, prefix string) *Frame 
 		fr.depth = parent.depth + 1
 	}
 	fr.block = ex.w.specs.get("func", fnName(fn))
+	if parent == nil && ex.block != nil && ex.block.Kind == "cases" {
+		fr.block = ex.block // the function is verified against its per-case contracts
+	}
 	if fr.block != nil {
 		fr.block.used = true
 	}
@@ -328,6 +331,9 @@ func (ex *Exec) execBlock(fr *Frame, b *ssa.BasicBlock, st *State, pred *ssa.Bas
 		}
 	}
 	if li := fr.loops[b]; li != nil {
+		if st.inLoop[b] && st.caseName != "" {
+			ex.leaveCase(fr, st)
+		}
 		if st.inLoop[b] {
 			// back edge: per-iteration assertions (`loop N step`: proved here, in terms of the new values of the
 			// loop-carried variables, their values prev_<name> at the start of the iteration, and the locals of the body)
@@ -661,6 +667,11 @@ func (ex *Exec) loopEnv(fr *Frame, li *loopInfo, st *State) map[string]CV {
 				if sv, ok := st.vals[al]; ok && sv.Loc != nil {
 					if _, dup := addrVars[al.Comment]; !dup {
 						addrVars[al.Comment] = CV{T: ex.loadLoc(st, sv.Loc), Sort: ex.w.sortOf(sv.Loc.Elem), Type: sv.Loc.Elem}
+					}
+				} else if ok && sv.Loc == nil && sv.Tup == nil && isStructType(derefType(al.Type())) {
+					// a local struct variable: the name denotes (a pointer to) the struct object, so fields can be read
+					if _, dup := addrVars[al.Comment]; !dup {
+						addrVars[al.Comment] = CV{T: sv.T, Sort: "Int", Type: al.Type()}
 					}
 				}
 				continue
@@ -1019,6 +1030,7 @@ func (ex *Exec) execInstrs(fr *Frame, b *ssa.BasicBlock, i int, st *State) {
 			if c != "false" {
 				st1 := st.clone()
 				st1.assume(c)
+				ex.enterCase(fr, st1, x)
 				ex.execBlock(fr, b.Succs[0], st1, b)
 			}
 			if c != "true" {
@@ -1715,4 +1727,83 @@ func (ex *Exec) ghostAsserts(fr *Frame, st *State, call *ssa.Call, preCall *Stat
 		}
 		ex.check(fr, st, "assert", label, call.Pos(), t)
 	}
+}
+
+// enterCase: on the true branch of `tag == <constant>` (a switch case), the `case <constant> assume e` clauses of a
+// `cases` block are assumed and the state is remembered for the `case <constant> ensures` clauses.
+func (ex *Exec) enterCase(fr *Frame, st *State, x *ssa.If) {
+	if fr.block == nil || fr.block.Kind != "cases" || fr.parent != nil {
+		return
+	}
+	cmp, ok := x.Cond.(*ssa.BinOp)
+	if !ok || cmp.Op != token.EQL {
+		return
+	}
+	k, ok := cmp.Y.(*ssa.Const)
+	if !ok || k.Value == nil {
+		return
+	}
+	name := ex.constName(k)
+	if name == "" {
+		return
+	}
+	st.caseName = name
+	st.caseEntry = st.clone()
+	ctx := &EvalCtx{ex: ex, st: st, old: fr.pre, env: ex.loopEnv(fr, nil, st)}
+	for _, c := range fr.block.Clauses {
+		if c.Kind != "case-assume" || c.Names[0] != name {
+			continue
+		}
+		c.hit = true
+		t, err := ctx.evalBool(c.E)
+		if err != nil {
+			ex.errorf("%s: case %s assume: %v", fnName(fr.fn), name, err)
+			continue
+		}
+		st.assume(t)
+	}
+}
+
+// leaveCase: at the back edge of the enclosing loop, the `case <constant> ensures` clauses of the case the path went
+// through are obligations; old() refers to the state at the entry of the case.
+func (ex *Exec) leaveCase(fr *Frame, st *State) {
+	if fr.block == nil || fr.block.Kind != "cases" {
+		return
+	}
+	name := st.caseName
+	ctx := &EvalCtx{ex: ex, st: st, old: st.caseEntry, env: ex.loopEnv(fr, nil, st)}
+	for _, c := range fr.block.Clauses {
+		if c.Kind != "case-ensures" || c.Names[0] != name {
+			continue
+		}
+		c.hit = true
+		t, err := ctx.evalBool(c.E)
+		if err != nil {
+			ex.errorf("%s: case %s ensures %s: %v", fnName(fr.fn), name, c.Label, err)
+			continue
+		}
+		label := name
+		if c.Label != "" {
+			label = name + "." + c.Label
+		}
+		ex.oblige(fr, st, "case-post", label, token.NoPos, t)
+	}
+	st.caseName = ""
+}
+
+// constName: the name of the package-level constant of this type with this value (e.g. ruleAction7).
+func (ex *Exec) constName(k *ssa.Const) string {
+	named, ok := k.Type().(*types.Named)
+	if !ok {
+		return ""
+	}
+	scope := ex.w.pkg.Pkg.Scope()
+	for _, n := range scope.Names() {
+		if c, ok := scope.Lookup(n).(*types.Const); ok && types.Identical(c.Type(), named) {
+			if c.Val().ExactString() == k.Value.ExactString() {
+				return n
+			}
+		}
+	}
+	return ""
 }
